@@ -3,6 +3,7 @@ package main
 import (
 	"go/ast"
 	"go/constant"
+	"go/token"
 	"strings"
 
 	"golang.org/x/tools/go/packages"
@@ -57,7 +58,7 @@ func targets() []*target {
 				})
 				return
 			}, comment: "(condition of the nested diagnostic)"},
-		{pkg: slogPkg, recv: "handlerWriter", fn: "Write", coq: "bridge_admit", fallback: "DecisionRef.bridge_admit_ref",
+		{pkg: slogPkg, recv: "handlerWriter", fn: "Write", coq: "bridge_admit", fallback: "DecisionRef.bridge_admit_now",
 			params: []string{"(f_enabled : Z -> bool)", "(s_lvl s_l_level : Z)"}, result: "bool",
 			cond: func(fd *ast.FuncDecl) ast.Expr {
 				if len(fd.Body.List) > 0 {
@@ -126,6 +127,7 @@ func targets() []*target {
 		{pkg: slogPkg, recv: "LWs", fn: "Write", coq: "write_plain", file: "Delivery", strict: true, fallback: "GenRef.write_plain_ref",
 			comment: "(fold over the members; returns (n, err, trace, clock))",
 			tymap:   deliveryTypes("member"), effects: []string{"tr_", "k_"},
+			opaque:  map[string]string{"io.ErrShortWrite": "err_other", "io.EOF": "err_other", "os.ErrClosed": "err_other"},
 			calls: map[string]callSpec{
 				"LogWriter.Write": {res: "io_write wres k_", ev: "EvWrite (member_id %r)", tick: true},
 				"errors.Join":     {pure: "err_join %0 %1"},
@@ -151,10 +153,12 @@ func targets() []*target {
 				"*Entry.Error": {tail: "PoOther"}, "*Entry.Info": {tail: "PoOther"}, "*Entry.Debug": {tail: "PoOther"},
 				"*Entry.Trace": {tail: "PoOther"}, "*Entry.Fatal": {tail: "PoOther"}, "*Entry.Panic": {tail: "PoOther"},
 				"*Entry.Print": {tail: "PoOther"}, "*Entry.Println": {tail: "PoOther"},
+				// the logger's own writer set asked for another level (an oracle nothing is known about)
+				"*dualWriter.Get": {pure: "f_writerGet %0"},
 			},
 			params: []string{"(asm_LevelSettable asm_logwr : member -> option wid)", "(fld_Writer : wid -> wid)", "(as_LevelSettable_of_io_Writer : wid -> option wid)",
 				"(as_LWs_of_LogWriter : logwriter -> option (list member))", "(as_LevelSettable_of_LogWriter : logwriter -> option wid)",
-				"(f_findWriter : Z -> logwriter)", "(wres : nat -> Z * bool)", "(lvl : Z)", "(msg : bytes)", "(tr_ : list wevent)", "(k_ : nat)"},
+				"(f_writerGet : Z -> list member)", "(f_findWriter : Z -> logwriter)", "(wres : nat -> Z * bool)", "(lvl : Z)", "(msg : bytes)", "(tr_ : list wevent)", "(k_ : nat)"},
 			result: "po_result", final: "(PoReturn tr_ k_)"},
 
 		// ---- level names (C17; C06 and C09 print them) ----
@@ -355,9 +359,13 @@ func targets() []*target {
 			effects: []string{"s_extraFrames"}, params: []string{"(s : eref)", "(s_extraFrames : Z)", "(extraFrames : Z)"}, result: "Z", final: "s_extraFrames",
 			tymap: map[string]string{"*Entry": "eref"}},
 		{pkg: slogPkg, recv: "Entry", fn: "WithSkip", coq: "with_skip_child", file: "Loggers", strict: true, fallback: "TreeRef.with_skip_child_ref",
-			tymap:  map[string]string{"*Entry": "eref"},
+			tymap:  map[string]string{"*Entry": "eref"}, nils: map[string]string{"eref": "eref_nil"}, panicT: "eref_nil",
 			calls:  map[string]callSpec{"*Entry.newChildLogger": {pure: "f_newChild %0", spread: true}, "*Entry.withSkip": {pure: "f_withSkip %r %0"}},
-			params: []string{"(f_newChild : bytes -> eref)", "(f_withSkip : eref -> Z -> eref)", "(s_name : bytes)", "(s_extraFrames : Z)", "(extraFrames : Z)"},
+			// the receiver's children, format flags and level are inputs, and a write to such a field of the CHILD is a setter
+			// applied to it: touching them is a different result, not a fall-back
+			setters: map[string]string{"useJSON": "set_useJSON", "useColor": "set_useColor", "level": "set_level", "extraFrames": "set_extraFrames"},
+			params: []string{"(f_newChild : bytes -> eref)", "(f_withSkip : eref -> Z -> eref)", "(set_useJSON set_useColor : eref -> bool -> eref)", "(set_level set_extraFrames : eref -> Z -> eref)",
+				"(s_name : bytes)", "(s_extraFrames s_level : Z)", "(s_useJSON s_useColor : bool)", "(s_items : gomapB eref)", "(extraFrames : Z)"},
 			result: "eref", final: "eref_nil"},
 
 		// nest: s.ops is only read (a list of (group, attrs)); the attributes are slices of heap cells; NewGroupedAttr
@@ -406,6 +414,127 @@ func targets() []*target {
 			result: "option (option bytes * list Z * list (Z * bytes) * list (bytes * Z) * list (Z * list (Z * bytes)) * list (Z * list Z) * list (Z * Z) * list (Z * bool))",
 			final:  "None"},
 
+		// ---- the end of Entry.logContext (C12): from the print of the record to the end of the function ----
+		// every statement on the way is translated, so an early return between the print and the termination block
+		// changes the generated function; the record's print is the event (its level), the panic value is msg, the
+		// exit code that of the source; the pooled attribute slice is a []T of which only length and capacity matter
+		{pkg: slogPkg, recv: "Entry", fn: "logContext", coq: "after_print", file: "Termination", strict: true, fallback: "TermRef.after_print_ref",
+			comment: "(from s.print to the end: Some (how the call ends, trace) | None = a range panic)",
+			tymap:   map[string]string{"Attrs": "gslice"}, effects: []string{"tr_"}, panicT: "None", panicFmt: "Some (DoPanic %s, tr_)",
+			opaque:  map[string]string{"inTesting": "g_inTesting", "inBenching": "g_inBenching", "isDebugging": "g_isDebugging", "isDebug": "g_isDebug"},
+			calls: map[string]callSpec{
+				"*Entry.print":   {ev: "%1", lazy: true},
+				"sync.Pool.Put":  {ignore: true},
+				"IsAnyBitsSet":   {pure: "(negb (Z.land g_flags %0 =? 0))"},
+				"IsAllBitsSet":   {pure: "(Z.land g_flags %0 =? %0)"},
+				"os.Exit":        {tail: "exit_end %0"},
+			},
+			from: func(stmts []ast.Stmt) []ast.Stmt {
+				for i, s := range stmts {
+					if es, ok := s.(*ast.ExprStmt); ok && strings.HasPrefix(src(es.X), "s.print(") {
+						return stmts[i:]
+					}
+				}
+				return nil
+			},
+			params: []string{"(g_inTesting g_inBenching g_isDebugging g_isDebug : bool)", "(g_flags : Z)", "(lvl : Z)", "(msg : bytes)", "(kvps : gslice)", "(tr_ : list Z)"},
+			result: "option (term * list Z)", final: "Some (Continue, tr_)"},
+		// the initialiser of the package variable inTesting (the process-mode input of the decision): what it asks hedzr/is
+		{pkg: slogPkg, recv: "Entry", fn: "logContext", coq: "in_testing_init", file: "Termination", strict: true, fallback: "TermRef.in_testing_init_ref",
+			comment: "(the initialiser of var inTesting)", panicT: "false",
+			calls: map[string]callSpec{"is.InTesting": {pure: "f_InTesting"}, "is.InBenchmark": {pure: "f_InBenchmark"}, "is.InDebugging": {pure: "f_InDebugging"},
+				"is.DebugMode": {pure: "f_DebugMode"}, "is.DebugBuild": {pure: "f_DebugBuild"}},
+			cond: func(fd *ast.FuncDecl) ast.Expr { return varInit(slogPkg(), "inTesting") },
+			params: []string{"(f_InTesting f_InBenchmark f_InDebugging f_DebugMode f_DebugBuild : bool)"}, result: "bool", final: "false"},
+
+		// ---- bare entry points (C01, C03): which internal routine a call ends in, and with what ----
+		// Entry.Println: every path must end in s.log1 (the gate and the caller depth of every other entry point);
+		// the routines a short cut could use instead (printOut, print, printImpl, logContext) are declared too, so that
+		// such an edit is a different route and not a fall-back
+		{pkg: slogPkg, recv: "Entry", fn: "Println", coq: "println_route", file: "Routes", strict: true, fallback: "RouteRef.println_route_ref",
+			comment: "(the internal call the function ends in; RNone = none, RPanic = a run-time panic)", panicT: "RPanic", inlineVars: true,
+			tymap: map[string]string{"[]any": "list garg", "any": "garg", "[]byte": "list Z"},
+			calls: map[string]callSpec{
+				"*Entry.log1":       {tail: "RLog1 %0 %1 %2", spread: true},
+				"*Entry.logContext": {tail: "RLogContext %1 %3 %4", spread: true, lazy: true},
+				"*Entry.printOut":   {tail: "RPrintOut %0 %1"},
+				"fmt.Sprint":        {pure: "f_sprint %0"},
+			},
+			params: []string{"(as_string_of_any : garg -> option bytes)", "(f_sprint : garg -> bytes)", "(args : list garg)"},
+			result: "route", final: "RNone"},
+		// Entry.printImpl, its first statement: a blank Always record is handed to s.printOut (the delivery routine of
+		// every record: writer selection, told level, error handling) as one line feed; what is delivered before the
+		// formatting starts is the trace
+		{pkg: slogPkg, recv: "Entry", fn: "printImpl", coq: "blank_line", file: "Routes", strict: true, fallback: "RouteRef.blank_line_ref",
+			comment: "(the first statement: what is delivered before formatting starts, and how)", panicT: "[DPanic]", inlineVars: true, effects: []string{"tr_"},
+			tymap: map[string]string{"[]byte": "list Z", "LogWriter": "option Z"},
+			opaque: map[string]string{"pc.lvl": "pc_lvl", "pc.msg": "pc_msg"}, nilTest: map[string]string{"option Z": "is_nil"},
+			calls: map[string]callSpec{
+				"*Entry.printOut":     {ev: "DPrintOut %0 %1"},
+				"*Entry.findWriter":   {pure: "f_findWriter %0"},
+				"LogWriter.Write":     {ev: "DRawWrite %r %0", res: "(0, @None unit)"},
+				"LWs.Write":           {ev: "DRawWrite None %0", res: "(0, @None unit)"},
+				"strings.Trim":        {pure: "f_trim %0 %1"},
+				"strings.TrimSpace":   {pure: "f_trim %0 [x20]"},
+				"collectWrittenBytes": {ignore: true},
+			},
+			from: func(stmts []ast.Stmt) []ast.Stmt {
+				if len(stmts) > 1 && containsText(stmts[0], "AlwaysLevel") {
+					return stmts[:1]
+				}
+				return nil
+			},
+			params: []string{"(f_trim : bytes -> bytes -> bytes)", "(f_findWriter : Z -> option Z)", "(pc_lvl : Z)", "(pc_msg : bytes)", "(tr_ : list deliv)"},
+			result: "list deliv", final: "tr_"},
+
+		// ---- the std-log bridge (C14, C15): what NewLogLogger builds and what handlerWriter.Write does with it ----
+		// NewLogLogger: the writer handed to log.New as the tuple of its four fields; the flags word, the levels of the
+		// logger and io.Discard are part of the fragment, so that a construction-time decision is a different value
+		{pkg: slogPkg, recv: "", fn: "NewLogLogger", coq: "new_log_logger", file: "Bridge", strict: true, fallback: "BridgeRef.new_log_logger_ref",
+			comment: "(the writer, prefix and flags given to log.New)", panicT: "BridgeNone",
+			tymap: map[string]string{"Logger": "Z", "handlerWriter": "Z * Z * bool * Z", "*handlerWriter": "Z * Z * bool * Z", "io.Writer": "Z * Z * bool * Z", "*log.Logger": "bridge"},
+			opaque: map[string]string{"io.Discard": "w_discard"},
+			calls: map[string]callSpec{
+				"log.New":      {pure: "mk_bridge %0 %1 %2"},
+				"IsAnyBitsSet": {pure: "(negb (Z.land g_flags %0 =? 0))"},
+				"IsAllBitsSet": {pure: "(Z.land g_flags %0 =? %0)"},
+				"Logger.Level": {pure: "f_level %r"},
+				"GetLevel":     {pure: "g_deflevel"},
+				// what the logger answers at CONSTRUCTION time (its gate, its skip count): oracles nothing is known about
+				"Logger.Enabled": {pure: "f_cEnabled %r %0"},
+				"Logger.Skip":    {pure: "f_cSkip %r"},
+			},
+			params: []string{"(f_level : Z -> Z)", "(f_cEnabled : Z -> Z -> bool)", "(f_cSkip : Z -> Z)", "(g_flags g_deflevel : Z)", "(h : Z)", "(lvl : Z)"}, result: "bridge", final: "BridgeNone"},
+		// handlerWriter.Write whole: the logger is asked at WRITE time, the program counter is taken at depth 4 plus the
+		// skip counts iff capturePC, the bytes go to WriteInternal at the bridge severity
+		{pkg: slogPkg, recv: "handlerWriter", fn: "Write", coq: "bridge_write", file: "Bridge", strict: true, fallback: "BridgeRef.bridge_write_ref",
+			comment: "(returns (n, err, trace of WriteInternal calls))", panicT: "(0, @None unit, [BWPanic])", effects: []string{"tr_"},
+			tymap: map[string]string{"Logger": "Z", "LogLoggerAware": "Z", "uintptr": "Z", "[]byte": "bytes", "error": "option unit"},
+			calls: map[string]callSpec{
+				"Logger.Enabled":               {pure: "f_enabled %r %0"},
+				"Logger.Skip":                  {pure: "f_skip %r"},
+				"getpc":                        {pure: "f_getpc %0 %1"},
+				"LogLoggerAware.WriteInternal": {ev: "BWInternal %r %1 %2 %3", res: "(w_n, w_e)", lazy: true},
+			},
+			params: []string{"(f_enabled : Z -> Z -> bool)", "(f_skip : Z -> Z)", "(f_getpc : Z -> Z -> Z)", "(as_LogLoggerAware_of_Logger : Z -> option Z)", "(w_n : Z)", "(w_e : option unit)",
+				"(s_l s_lvl : Z)", "(s_capturePC : bool)", "(s_extraFrames : Z)", "(buf : bytes)", "(tr_ : list bwev)"},
+			result: "Z * option unit * list bwev", final: "(n, err, tr_)"},
+
+		// Entry.writeInternal (what the bridge's Write ends in): ONE final line feed is taken off, the whole length is
+		// reported, the rest is printed as the message at the given level, instant and pc, without attributes
+		{pkg: slogPkg, recv: "Entry", fn: "writeInternal", coq: "write_internal", file: "Bridge", strict: true, fallback: "BridgeRef.write_internal_ref",
+			comment: "(returns (n, err, trace of print calls); None = a range panic)", panicT: "None", retfmt: "Some (%s)", effects: []string{"tr_"},
+			tymap: map[string]string{"uintptr": "Z", "[]byte": "bytes", "error": "option unit", "time.Time": "Z", "Attrs": "list Z"},
+			calls: map[string]callSpec{
+				"time.Now":     {pure: "g_now"},
+				"*Entry.print": {ev: "BWPrint %1 %2 %3 %4", lazy: true},
+				// other ways to trim: oracles nothing is known about
+				"strings.TrimRight": {pure: "f_trimRight %0 %1"}, "strings.TrimSuffix": {pure: "f_trimSuffix %0 %1"},
+				"bytes.TrimRight": {pure: "f_trimRight %0 %1"}, "bytes.TrimSuffix": {pure: "f_trimSuffix %0 %1"},
+			},
+			params: []string{"(f_trimRight f_trimSuffix : bytes -> bytes -> bytes)", "(g_now : Z)", "(lvl stackFrame : Z)", "(buf : bytes)", "(tr_ : list bwev)"},
+			result: "option (Z * option unit * list bwev)", final: "Some (n, err, tr_)"},
+
 		// ---- the buffer methods of PrintCtx (C19) ----
 		bufT("empty", "buf_empty", nil, "bool", "false", false),
 		bufT("Len", "buf_len", nil, "Z", "0", false),
@@ -429,7 +558,7 @@ func targets() []*target {
 		bufT("WriteTo", "buf_write_to", []string{"(w : unit)", "(w_m : Z)", "(w_e : err)", "(tr_ : list bytes)"}, "bres (Z * err) (bstate * list bytes)", "", true),
 		// the io.Reader is a script (Model/Buffer.v rresp): an answer per call, delivered into the window it is handed,
 		// which must be s.buf[..:cap(s.buf)] (checked): the bytes land in the spare capacity of s.buf
-		bufT("ReadFrom", "buf_read_from", []string{"(f_isnil : gslice -> bool)", "(f_growSlice : gslice -> Z -> bres gslice unit)", "(r : unit)", "(script_ : list rresp)"},
+		bufT("ReadFrom", "buf_read_from", []string{"(f_isnil : gslice -> bool)", "(f_growSlice : gslice -> Z -> bres gslice unit)", "(f_errors_is : err -> err -> bool)", "(r : unit)", "(script_ : list rresp)"},
 			"bres (Z * err) (bstate * list rresp)", "", true),
 	}
 }
@@ -514,6 +643,8 @@ func bufT(fn, coq string, params []string, result, final string, eff bool) *targ
 					return "Read into something else than s.buf[..:cap(s.buf)]"
 				}}
 			t.nilTest = map[string]string{"err": "err_is_enil"}
+			// errors.Is is an oracle nothing is known about (it is NOT ==: it unwraps): using it is a different function
+			t.calls["errors.Is"] = callSpec{pure: "f_errors_is %0 %1"}
 		}
 		if fn == "grow" {
 			t.nilTest = map[string]string{"gslice": "f_isnil"}
@@ -559,6 +690,9 @@ var genFiles = [][2]string{
 	{"Registry", "Require Import Verif.Model.Base Verif.Model.Decision Verif.Model.Dec Verif.Model.GoSem Verif.Model.Level Verif.Model.RegRef."},
 	{"Loggers", "Require Import Verif.Model.Base Verif.Model.Decision Verif.Model.Dec Verif.Model.GoSem Verif.Model.TreeRef."},
 	{"Handlers", "Require Import Verif.Model.Base Verif.Model.Decision Verif.Model.GoSem Verif.Model.AdaptRef."},
+	{"Routes", "Require Import Verif.Model.Base Verif.Model.Decision Verif.Model.GoSem Verif.Model.TreeRef Verif.Model.RouteRef."},
+	{"Bridge", "Require Import Verif.Model.Base Verif.Model.Decision Verif.Model.GoSem Verif.Model.BridgeRef."},
+	{"Termination", "Require Import Verif.Model.Base Verif.Model.Decision Verif.Model.GoSem Verif.Model.Terminate Verif.Model.TermRef."},
 	{"Context", "Require Import Verif.Model.Base Verif.Model.Decision Verif.Model.GoSem Verif.Model.Attrs Verif.Model.PcRef."},
 	{"LevelNames", "Require Import Verif.Model.Base Verif.Model.Decision Verif.Model.Dec Verif.Model.GoSem Verif.Model.LevelRef."},
 }
@@ -591,4 +725,22 @@ func commentSafe(s string) string {
 	s = strings.ReplaceAll(s, "*)", "* )")
 	s = strings.ReplaceAll(s, "(*", "( *")
 	return strings.ReplaceAll(s, "\"", "'")
+}
+
+// varInit: the initialiser expression of a package-level variable declared with one name and one value
+func varInit(p *packages.Package, name string) ast.Expr {
+	for _, f := range p.Syntax {
+		for _, d := range f.Decls {
+			gd, ok := d.(*ast.GenDecl)
+			if !ok || gd.Tok != token.VAR {
+				continue
+			}
+			for _, sp := range gd.Specs {
+				if vs, ok := sp.(*ast.ValueSpec); ok && len(vs.Names) == 1 && len(vs.Values) == 1 && vs.Names[0].Name == name {
+					return vs.Values[0]
+				}
+			}
+		}
+	}
+	return nil
 }
